@@ -271,8 +271,11 @@ def classify(doc_model, terms, opts):
         k = node["k"]
         if node["alias"] and not top:
             if not IV:                                                   # R5 + R2
-                emit(segs, loc, FORBIDDEN, "expanded-aliased-value", tags)
-                mark_below(node, segs, loc, FORBIDDEN, "expanded-aliased-value", tags)
+                why = "expanded-aliased-value"
+                if k == "scalar" and node["anchor"] in unvisited:
+                    why += "-of-unvisited-anchor"      # original sits below a discarded aliased key
+                emit(segs, loc, FORBIDDEN, why, tags)
+                mark_below(node, segs, loc, FORBIDDEN, why, tags)
                 return
             tags = set(tags) | {"alias-value"}
         if k == "scalar":
